@@ -401,9 +401,9 @@ def likeify(progs, rng):
 
 def make_case(rng, host, depth, family, nsteps, name, budget=8, p_bad=0.0):
     ids = Ids()
-    legacy = host == "core_legacy"
+    legacy = host in ("core_legacy", "tester_legacy")
     if legacy:
-        family, host = "legacy", "core"
+        family, host = "legacy", host.split("_")[0]
     g = Gen(rng, ids, max_depth=depth, family=family, script_budget=budget)
     direct = host in ("direct", "stream")
     if not direct and not legacy and family in ("mixed", "script"):
